@@ -38,7 +38,7 @@ def gen_case(rng, tier, idx):
     exact = (idx // 3) % 3 == 2
     attrs, shape = gen.domain(rng, 2, 5, sizes=(2, 3, 4), max_cells=400)
     structure = 'disjoint' if exact else gen.pick(rng, ['cyclic', 'nested', 'repeated', 'random', 'random', 'disjoint'])
-    N = float(gen.pick(rng, [1, 20, 1000]))
+    N = float(gen.pick(rng, [1, 20, 1000])) if not exact else float(gen.pick(rng, [20, 100, 230, 800, 1000]))
     meas, info = measure.gen_measurements(rng, attrs, shape, 1, 4, N=N, structure=structure, min_cells=2, max_cells=64,
                                           qkinds=['identity', 'identity', 'dense', 'sparse', 'prefix', 'tall'])
     balanced = (idx % 19 == 18)
@@ -49,7 +49,9 @@ def gen_case(rng, tier, idx):
             m_['y'] = (m_['Q'] @ (np.ones(n) * max(1.0, N) / n)) if m_['Q'] is not None else np.ones(n) * max(1.0, N) / n
     if exact:
         # the exactness clause is about the optimum, not about conditioning: one noise scale per problem
-        s0 = float(gen.pick(rng, measure.SIGMAS))
+        # half of them in the regime where the step size that survives the first 50 iterations is still close to
+        # unstable (counts in the hundreds, noise around 1): that is where a missing step reduction shows
+        s0 = float(gen.pick(rng, measure.SIGMAS)) if rng.rand() < 0.5 else float(gen.pick(rng, [0.5, 0.85, 1.0, 1.7]))
         for m_ in meas:
             m_['y'] = m_['y'] + 0.0
             m_['sigma'] = s0
